@@ -14,6 +14,9 @@ for d in sorted(glob.glob('/verif/seeded/*/')):
     if 'agent' in agent and 'confirmed' in agent:
         agent = agent['agent']
     conf = json.load(open(d + 'confirm.json'))
+    on_head = conf.get('on_head')
+    if 'at_acceptance' in conf:
+        conf = conf['at_acceptance'] or on_head
     dd = det.get(sid, {})
     prop = agent.get('property', sid[-3:])
     meta = {
@@ -32,6 +35,14 @@ for d in sorted(glob.glob('/verif/seeded/*/')):
         "detection": dd,
         "agent": agent,
     }
+    if os.path.exists(d + 'meta.json'):
+        try:
+            prev = json.load(open(d + 'meta.json'))
+            for k in ('reverified_on_head',):
+                if k in prev:
+                    meta[k] = prev[k]
+        except Exception:
+            pass
     json.dump(meta, open(d + 'meta.json', 'w'), indent=1)
     ok = conf['builds'] and conf['demo_fails_with_change'] and conf['demo_passes_without_change'] and conf['suite_fail'] == 0 and conf['suite_pass'] >= 90
     rows.append((sid, prop, ok, dd.get('first_try'), dd.get('caught_by', '?')))
